@@ -1397,3 +1397,246 @@ Lemma pipeline_prefix_inv dbg b0 b1 cap l1 l2 :
 Proof.
   intros H. apply nrun_inv; [apply sinit_inv|]. apply Forall_app in H. tauto.
 Qed.
+
+Lemma other_arena_untouched dbg st a o : sel (negb a) (fst (sstep dbg st (SCli a o))) = sel (negb a) st.
+Proof. exact (sstep_other_arena dbg st (SCli a o)). Qed.
+
+Lemma cli_pipeline_invariant dbg b0 b1 cap p l1 l2 :
+  phase_ok p -> cli_shape p = l1 ++ l2 -> SInv (nrun dbg (sinit b0 b1 cap) l1).
+Proof.
+  intros Hp He. apply (pipeline_prefix_inv dbg b0 b1 cap l1 l2).
+  rewrite <- He. exact (cli_shape_ok p Hp).
+Qed.
+
+Lemma lib_pipeline_invariant dbg b0 b1 cap p l1 l2 :
+  phase_ok p -> lib_shape p = l1 ++ l2 -> SInv (nrun dbg (sinit b0 b1 cap) l1).
+Proof.
+  intros Hp He. apply (pipeline_prefix_inv dbg b0 b1 cap l1 l2).
+  rewrite <- He. exact (lib_shape_ok p Hp).
+Qed.
+
+(* ---------- what was written is what is read back ---------- *)
+
+(* Ghost bookkeeping, not part of the model: for every live block that some client filled
+   with `OWrite idx seed`, the seed and the length of the prefix that still carries the
+   pattern (a shrink cuts it).  It is a function of the op list and of the ledgers only. *)
+Record went := mkWe { we_arena : bool; we_id : Z; we_seed : Z; we_len : Z }.
+
+Definition same_key (e x : went) : bool := Bool.eqb (we_arena x) (we_arena e) && (we_id x =? we_id e).
+
+Definition trim_went (st' : sst) (e : went) : list went :=
+  match find_blk (c_live (sel (we_arena e) st')) (we_id e) with
+  | Some b => [mkWe (we_arena e) (we_id e) (we_seed e) (Z.min (we_len e) (b_len b))]
+  | None => []
+  end.
+
+Definition written_by (st : sst) (o : sop) : option went :=
+  match o with
+  | SCli a (OWrite idx seed) =>
+      match top_of a (ss_bors st), pick (c_live (sel a st)) idx with
+      | Some _, Some b => Some (mkWe a (b_id b) seed (b_len b))
+      | _, _ => None
+      end
+  | _ => None
+  end.
+
+Definition gstep (dbg : bool) (st : sst) (o : sop) (g : list went) : list went :=
+  let st' := fst (sstep dbg st o) in
+  match o with
+  | SInit => []
+  | _ =>
+      match written_by st o with
+      | Some e => e :: flat_map (trim_went st') (filter (fun x => negb (same_key e x)) g)
+      | None => flat_map (trim_went st') g
+      end
+  end.
+
+Fixpoint grun (dbg : bool) (st : sst) (ops : list sop) (g : list went) : list went :=
+  match ops with
+  | [] => g
+  | o :: rest => grun dbg (fst (sstep dbg st o)) rest (gstep dbg st o g)
+  end.
+
+(* the block is live, at least we_len long, and its first we_len bytes are the pattern *)
+Definition went_ok (st : sst) (e : went) : Prop :=
+  exists b, find_blk (c_live (sel (we_arena e) st)) (we_id e) = Some b /\
+    we_len e <= b_len b /\
+    forall i, 0 <= i < we_len e -> s_m (c_s (sel (we_arena e) st)) (b_off b + i) = pattern (we_seed e) i.
+
+Lemma written_by_swrites st o a id :
+  swrites st o a id ->
+  exists e, written_by st o = Some e /\ we_arena e = a /\ we_id e = id.
+Proof.
+  destruct o as [c| |a' op|]; cbn [swrites]; try contradiction.
+  intros (-> & Ht & Hw). destruct op; cbn [writes_to] in Hw; try contradiction.
+  cbn [written_by]. destruct (top_of a (ss_bors st)) as [t|]; [|congruence].
+  destruct (pick (c_live (sel a st)) idx) as [b|]; [|contradiction].
+  eexists. split; [reflexivity|]. cbn [we_arena we_id]. auto.
+Qed.
+
+Lemma trimmed_ok dbg st o x :
+  SInv st -> sop_ok o -> disc st o -> went_ok st x ->
+  ~ swrites st o (we_arena x) (we_id x) ->
+  Forall (went_ok (fst (sstep dbg st o))) (trim_went (fst (sstep dbg st o)) x).
+Proof.
+  intros HS Hop Hd (b & Hf & Hle & Hc) Hnw. unfold trim_went.
+  destruct (find_blk (c_live (sel (we_arena x) (fst (sstep dbg st o)))) (we_id x)) as [b'|] eqn:Hf'; [|constructor].
+  constructor; [|constructor].
+  exists b'. cbn [we_arena we_id we_seed we_len]. split; [assumption|]. split; [lia|].
+  intros i Hi.
+  rewrite (sstep_contents dbg st o (we_arena x) (we_id x) b b' HS Hop Hd Hf Hf' Hnw i ltac:(lia)).
+  apply Hc. lia.
+Qed.
+
+Lemma write_entry_ok dbg st a idx seed t b :
+  SInv st -> top_of a (ss_bors st) = Some t -> pick (c_live (sel a st)) idx = Some b ->
+  went_ok (fst (sstep dbg st (SCli a (OWrite idx seed)))) (mkWe a (b_id b) seed (b_len b)).
+Proof.
+  intros HS Ht Hp.
+  rewrite (sstep_cli_eq dbg st a (OWrite idx seed) t Ht ltac:(discriminate) ltac:(discriminate)). cbn [fst].
+  unfold went_ok; cbn [we_arena we_id we_seed we_len]. rewrite sel_upd_same.
+  cbn [cstep]. rewrite Hp. cbn [fst c_live c_s s_m].
+  pose proof (SInv_sel a st HS) as (_ & _ & _ & Hnd & _).
+  pose proof (pick_In _ _ _ Hp) as Hin.
+  eexists. split.
+  - apply find_replace_same; [reflexivity|assumption|eauto].
+  - cbn [b_len b_off]. split; [lia|]. intros i Hi. unfold write_pat.
+    destruct (b_off b <=? b_off b + i) eqn:E1; destruct (b_off b + i <? b_off b + b_len b) eqn:E2; cbn [andb].
+    + f_equal. lia.
+    + apply Z.ltb_ge in E2. lia.
+    + apply Z.leb_gt in E1. lia.
+    + apply Z.leb_gt in E1. lia.
+Qed.
+
+Lemma Forall_flat_map {A B} (P : B -> Prop) (f : A -> list B) l :
+  (forall x, In x l -> Forall P (f x)) -> Forall P (flat_map f l).
+Proof.
+  intros H. apply Forall_forall. intros y Hy. apply in_flat_map in Hy. destruct Hy as (x & Hx & Hy).
+  specialize (H x Hx). rewrite Forall_forall in H. auto.
+Qed.
+
+Lemma gstep_ok dbg st o g :
+  SInv st -> sop_ok o -> disc st o -> Forall (went_ok st) g ->
+  Forall (went_ok (fst (sstep dbg st o))) (gstep dbg st o g).
+Proof.
+  intros HS Hop Hd Hg. unfold gstep.
+  assert (Hgen : forall l, Forall (went_ok st) l ->
+                 (forall x, In x l -> ~ swrites st o (we_arena x) (we_id x)) ->
+                 Forall (went_ok (fst (sstep dbg st o))) (flat_map (trim_went (fst (sstep dbg st o))) l)).
+  { intros l Hl Hn. apply Forall_flat_map. intros x Hx. rewrite Forall_forall in Hl.
+    apply trimmed_ok; auto. }
+  destruct (written_by st o) as [e|] eqn:Ew.
+  - assert (Hshape : exists a idx seed t b, o = SCli a (OWrite idx seed) /\ top_of a (ss_bors st) = Some t /\
+                       pick (c_live (sel a st)) idx = Some b /\ e = mkWe a (b_id b) seed (b_len b)).
+    { destruct o as [c| |a op|]; cbn [written_by] in Ew; try discriminate.
+      destruct op; try discriminate.
+      destruct (top_of a (ss_bors st)) as [t|] eqn:Et; [|discriminate].
+      destruct (pick (c_live (sel a st)) idx) as [b|] eqn:Ep; [|discriminate].
+      inversion Ew. eauto 10. }
+    destruct Hshape as (a & idx & seed & t & b & -> & Ht & Hp & ->).
+    constructor; [apply write_entry_ok with (t := t); assumption|].
+    apply Hgen.
+    + apply Forall_filter. assumption.
+    + intros x Hx Hsw. apply filter_In in Hx. destruct Hx as [_ Hk].
+      destruct (written_by_swrites _ _ _ _ Hsw) as (e' & He' & Ha & Hi).
+      rewrite Ew in He'. inversion He'; subst e'. unfold same_key in Hk.
+      rewrite Ha, Hi, Bool.eqb_reflx, Z.eqb_refl in Hk. discriminate.
+  - destruct o as [c| |a op|]; try (apply Hgen; [assumption|]; intros x Hx Hsw; exact Hsw).
+    + apply Hgen; [assumption|]. intros x Hx Hsw.
+      destruct (written_by_swrites _ _ _ _ Hsw) as (e' & He' & _). congruence.
+    + constructor.
+Qed.
+
+(* readback: along any disciplined run from `init`, every block that a client filled and
+   that is still live carries, on the recorded prefix, exactly the pattern that was last
+   written to it — whatever else the other phases did in either arena, in any wiring. *)
+Lemma grun_ok dbg ops : forall st g,
+  SInv st -> run_disc dbg st ops -> Forall (went_ok st) g ->
+  Forall (went_ok (srun dbg st ops)) (grun dbg st ops g).
+Proof.
+  induction ops as [|o ops IH]; intros st g HS Hr Hg; cbn [srun fold_left grun]; [assumption|].
+  cbn [run_disc] in Hr. destruct Hr as (Hop & Hd & Hr).
+  apply IH; [apply sstep_inv; assumption|assumption|apply gstep_ok; assumption].
+Qed.
+
+Lemma written_reads_back dbg b0 b1 cap ops :
+  run_disc dbg (sinit b0 b1 cap) ops ->
+  Forall (went_ok (srun dbg (sinit b0 b1 cap) ops)) (grun dbg (sinit b0 b1 cap) ops []).
+Proof. intros Hr. apply grun_ok; [apply sinit_inv|assumption|constructor]. Qed.
+
+Lemma ssim_live a st st' : ssim st st' -> c_live (sel a st) = c_live (sel a st').
+Proof. intros Hs. destruct (ssim_sel a _ _ Hs) as (_ & _ & _ & _ & _ & Hl & _). exact Hl. Qed.
+
+Lemma trim_went_sim st st' e : ssim st st' -> trim_went st e = trim_went st' e.
+Proof. intros Hs. unfold trim_went. rewrite (ssim_live _ _ _ Hs). reflexivity. Qed.
+
+Lemma written_by_sim st st' o : ssim st st' -> written_by st o = written_by st' o.
+Proof.
+  intros Hs. destruct o as [c| |a op|]; try reflexivity. destruct op; try reflexivity.
+  cbn [written_by]. destruct Hs as (H0 & H1 & Hb). rewrite Hb.
+  rewrite (ssim_live a st st' (conj H0 (conj H1 Hb))). reflexivity.
+Qed.
+
+Lemma gstep_sim dbg dbg' st st' o g :
+  ssim st st' -> SInv st -> sop_ok o -> disc st o -> gstep dbg st o g = gstep dbg' st' o g.
+Proof.
+  intros Hs HS Hop Hd. destruct (sstep_sim dbg dbg' st st' o Hs HS Hop Hd) as [Hs1 _].
+  unfold gstep. rewrite (written_by_sim _ _ o Hs).
+  assert (Hfm : forall l, flat_map (trim_went (fst (sstep dbg st o))) l = flat_map (trim_went (fst (sstep dbg' st' o))) l).
+  { intros l. apply flat_map_ext. intros e. apply trim_went_sim. assumption. }
+  destruct o; try reflexivity; destruct (written_by st' _); rewrite Hfm; reflexivity.
+Qed.
+
+Lemma grun_sim dbg dbg' ops : forall st st' g,
+  ssim st st' -> SInv st -> SInv st' -> run_disc dbg st ops -> grun dbg st ops g = grun dbg' st' ops g.
+Proof.
+  induction ops as [|o ops IH]; intros st st' g Hs HS HS' Hr; cbn [grun]; [reflexivity|].
+  cbn [run_disc] in Hr. destruct Hr as (Hop & Hd & Hr).
+  destruct (sstep_sim dbg dbg' st st' o Hs HS Hop Hd) as [Hs1 _].
+  rewrite (gstep_sim dbg dbg' st st' o g Hs HS Hop Hd).
+  apply IH; [assumption|apply sstep_inv; assumption| |assumption].
+  apply sstep_inv; [assumption|assumption|]. eapply disc_sim; eassumption.
+Qed.
+
+Lemma run_disc_sim dbg dbg' ops : forall st st',
+  ssim st st' -> SInv st -> run_disc dbg st ops -> run_disc dbg' st' ops.
+Proof.
+  induction ops as [|o ops IH]; intros st st' Hs HS Hr; cbn [run_disc] in *; [exact I|].
+  destruct Hr as (Hop & Hd & Hr). destruct (sstep_sim dbg dbg' st st' o Hs HS Hop Hd) as [Hs1 _].
+  refine (conj Hop (conj (disc_sim _ _ _ Hs Hd) _)).
+  apply (IH _ _ Hs1); [apply sstep_inv; assumption|assumption].
+Qed.
+
+(* After re-initialisation the blocks that clients have filled are the same blocks (same
+   arena, id; by the trace theorem the same addresses) carrying the same patterns as on
+   fresh arenas: one list of written entries is valid in both final states. *)
+Lemma reinit_contents_independent_lemma dbg dbg' b0 b1 cap prev ops :
+  run_disc dbg (sinit b0 b1 cap) prev ->
+  ss_bors (srun dbg (sinit b0 b1 cap) prev) = [] ->
+  run_disc dbg' (sinit b0 b1 cap) ops ->
+  let again := fst (sstep dbg (srun dbg (sinit b0 b1 cap) prev) SInit) in
+  let g := grun dbg' (sinit b0 b1 cap) ops [] in
+  Forall (went_ok (srun dbg' (sinit b0 b1 cap) ops)) g /\ Forall (went_ok (srun dbg again ops)) g.
+Proof.
+  intros Hprev Hnb Hops again g.
+  split; [apply written_reads_back; assumption|].
+  pose proof (scratch_inv_reachable dbg b0 b1 cap prev Hprev) as HSp.
+  set (stp := srun dbg (sinit b0 b1 cap) prev) in *.
+  pose proof (sstep_inv dbg stp SInit HSp I Hnb) as HSr. fold again in HSr.
+  assert (Hsim : ssim (sinit b0 b1 cap) again).
+  { subst again. cbn [sstep fst]. unfold reinit, ssim; cbn [ss0 ss1 ss_bors].
+    destruct HSp as (I0 & I1 & _).
+    destruct (srun_base_cap dbg prev (sinit b0 b1 cap) false) as [B0 C0].
+    destruct (srun_base_cap dbg prev (sinit b0 b1 cap) true) as [B1 C1].
+    fold stp in B0, C0, B1, C1. cbn [sel] in B0, C0, B1, C1.
+    assert (H : forall b c, Inv c -> a_base (s_a (c_s c)) = a_base (s_a (c_s (cinit b cap))) ->
+                  a_cap (s_a (c_s c)) = a_cap (s_a (c_s (cinit b cap))) -> asim (cinit b cap) (init_arena dbg c)).
+    { intros b c Hc Hb Hcap.
+      destruct (init_arena_facts dbg c Hc) as (O1 & L1 & N1 & M1 & B & C). unfold aoff in O1.
+      unfold asim. refine (conj (cinit_inv b cap) (conj (init_arena_inv dbg c Hc) _)).
+      rewrite O1, L1, N1, M1, B, C, Hb, Hcap. repeat split; reflexivity. }
+    refine (conj _ (conj _ (eq_sym Hnb))); apply H; assumption. }
+  subst g. rewrite (grun_sim dbg' dbg ops (sinit b0 b1 cap) again [] Hsim (sinit_inv b0 b1 cap) HSr Hops).
+  apply grun_ok; [assumption| |constructor].
+  apply (run_disc_sim dbg' dbg ops (sinit b0 b1 cap) again Hsim (sinit_inv b0 b1 cap) Hops).
+Qed.
